@@ -215,4 +215,5 @@ const (
 type Ocode struct {
 	Kind     OcodeKind
 	Operands []string // 数値や変数名など
+	BitMode  int      // 発行時点の BITS (0 = 未設定)
 }
